@@ -53,8 +53,20 @@ package csblob
 //@   on call (*pkcs7.SignedData).Verify(sd, ext, skip) ret (s, e): cmsOK = (e == nil)
 //@   on call checkCDHashes(_, _) ret (e): cdOK = (e == nil && cmsOK)
 //@   ensures @cms_signature_and_code_directory_hashes_verified ret1 == nil ==> cmsOK && cdOK
+//@   ghost needDER bool = false
+//@   ghost needEnt bool = false
+//@   ghost needReq bool = false
+//@   ghost needRep bool = false
+//@   before call (crypto.Hash).New(_): assert @every_slot_a_directory_binds_is_checked_before_the_next_directory !needDER && !needEnt && !needReq && !needRep
+//@   on call (crypto.Hash).New(_) ret (hh): needDER = dir.EntitlementsDERHash != nil; needEnt = dir.EntitlementsHash != nil; \
+//@        needReq = dir.RequirementsHash != nil; needRep = dir.RepSpecificHash != nil
+//@   on call hashCheck(_, b, exp) ret (e): needDER = needDER && !(e == nil && sameslice(exp, dir.EntitlementsDERHash) && sameslice(b, sig.EntitlementDER)); \
+//@        needEnt = needEnt && !(e == nil && sameslice(exp, dir.EntitlementsHash) && sameslice(b, sig.Entitlement)); \
+//@        needReq = needReq && !(e == nil && sameslice(exp, dir.RequirementsHash) && sameslice(b, sig.RawRequirements)); \
+//@        needRep = needRep && !(e == nil && sameslice(exp, dir.RepSpecificHash) && sameslice(b, params.RepSpecific))
+//@   ensures @entitlements_requirements_and_rep_specific_data_compared_whenever_a_directory_binds_them ret1 == nil ==> !needDER && !needEnt && !needReq && !needRep
 //@   loop 0 sig "for _, dir := range sig.Directories" invariant sig != nil && sigG == sig && !cmsOK && !cdOK && forall(k, 0, len(pre(sig.Directories)), pre(sig.Directories)[k] != nil) && \
-//@        sameslice(sig.Directories, pre(sig.Directories)) && (computedHashes != nil)
+//@        sameslice(sig.Directories, pre(sig.Directories)) && (computedHashes != nil) && !needDER && !needEnt && !needReq && !needRep
 
 //@ func parseSignature
 //@   property C11 C02
